@@ -101,7 +101,11 @@ func (s *scRM) Configure(w *World) {
 
 func (s *scRM) ErrVariants(w *World, q *Req) []replyVariant {
 	if q.pkt.Command == memd.CmdObserveSeqNo && w.ready1() {
-		return []replyVariant{{name: "tmpfail", status: memd.StatusTmpFail}, {name: "busy", status: memd.StatusBusy}}
+		vs := []replyVariant{{name: "tmpfail", status: memd.StatusTmpFail}, {name: "busy", status: memd.StatusBusy}}
+		if w.faultsFired["err:obs-silent"] < 2 {
+			vs = append(vs, replyVariant{name: "obs-silent", silent: true}) // the observe runs into its 5 s deadline
+		}
+		return vs
 	}
 	return nil
 }
